@@ -20,8 +20,16 @@ type c18kcfg struct {
 	ListenAddr string `dials:"ListenAddr" dialsalias:"BindAddr"`
 	MaxConns   int8   `dials:"MaxConns" dialsalias:"ConnLimit"`
 	LogLevel   string `dials:"LogLevel"`
+	// a nested section with a leaf ahead of an inner struct (set through the environment only)
+	Backend c18kbackend `dials:"Backend"`
 	// a set: the file chain presents it to the decoder as a list
 	Allowed map[string]struct{} `dials:"Allowed" dialsalias:"Whitelist"`
+}
+
+type c18kbackend struct {
+	Port int16
+	TLS  struct{ Cert string }
+	Name string
 }
 
 func (c *c18kcfg) ConfigPath() (string, bool) { return c.Cfg, c.Cfg != "" }
@@ -51,10 +59,12 @@ func (d *c18keydec) Decode(r io.Reader, t *dials.Type) (reflect.Value, error) {
 }
 
 func HarnessC18FileKeys() {
-	for _, v := range []string{"CFG_PATH", "LISTEN_ADDR", "BIND_ADDR", "MAX_CONNS", "CONN_LIMIT", "LOG_LEVEL"} {
+	for _, v := range []string{"CFG_PATH", "LISTEN_ADDR", "BIND_ADDR", "MAX_CONNS", "CONN_LIMIT", "LOG_LEVEL", "BACKEND_PORT", "BACKEND_TLS_CERT", "BACKEND_NAME", "ALLOWED", "WHITELIST"} {
 		zzverif.Unsetenv(v)
 	}
 	defer zzverif.Unsetenv("MAX_CONNS")
+	defer zzverif.Unsetenv("BACKEND_PORT")
+	zzverif.Setenv("BACKEND_PORT", "77")
 	path := zzverif.TempFile("{}")
 	// how the file names each aliased leaf: 0 not at all, 1 primary, 2 alias, 3 both
 	pAddr := zzverif.Choose("addr", 4)
@@ -113,6 +123,7 @@ func HarnessC18FileKeys() {
 	}
 	zzverif.Assert(!both, "C14 a leaf named in the file under both its primary and its alias name did not produce an error")
 	got := d.View()
+	zzverif.Assert(got.Backend.Port == 77 && got.Backend.Name == "", "C18 a nested leaf set only by the environment is missing from the first visible config")
 	zzverif.Assert(got.LogLevel == "file-level", "C18 an unaliased leaf named in the file's casing did not get the file's value")
 	if pAddr != 0 {
 		zzverif.Assert(got.ListenAddr == "file-addr", "C18 the file layer is missing for a leaf the file names by its primary or alias name (in the file's casing)")
